@@ -10,6 +10,7 @@ def check(ctx, prog):
     bounds.rule_extents(ctx, prog)
     bounds.rule_narrow_scratch(ctx, prog)
     scratch.rule_scratch(ctx, prog)
+    scratch.rule_call_chains(ctx, prog)
     capacity.rule_stack_height(ctx, prog, want=("R-SHAPES", "R-CAPACITY"))
     search.rule_solve_one(ctx, prog, want=("R-CAPACITY",))
     capacity.rule_probe_guard(ctx, prog)
